@@ -3,7 +3,8 @@ package main
 // RefsGen (C05/C08): event skeletons of the functions that implement reference
 // counting and the path-tree notifications - fidRef.DecRef, notifyDelete,
 // fidRef.markChildDeleted, notifyNameChange, fidRef.renameChildTo,
-// connState.stop (p9/server.go) and doWalk (p9/handlers.go).
+// connState.stop, LookupFID, InsertFID, DeleteFID (p9/server.go) and doWalk
+// (p9/handlers.go).
 //
 // A skeleton is the ordered list of the function's EVENTS: calls of the tracked
 // reference / tree / File operations (Close, Renamed, IncRef, DecRef, TryIncRef,
@@ -43,7 +44,7 @@ var refsTracked = map[string]bool{
 	"forEachChildRef": true, "forEachChildNode": true, "walkOne": true,
 	"safelyRead": true, "safelyWrite": true, "safelyGlobal": true,
 	"isDeleted": true, "hasParent": true, "AddInt64": true, "StoreUint32": true,
-	"Wait": true, "checkSafeName": true,
+	"Wait": true, "checkSafeName": true, "Lock": true, "Unlock": true, "delete": true,
 }
 
 var refsFields = map[string]bool{"parent": true, "file": true, "pathNode": true, "xattrOf": true}
@@ -96,7 +97,9 @@ func (w *refsWalker) expr(e ast.Expr) (string, error) {
 		}
 		if b == "?" {
 			if id, ok := x.X.(*ast.Ident); ok { // package-qualified name (linux.EINVAL, atomic.X)
-				return id.Name + "." + x.Sel.Name, nil
+				if _, local := w.env[id.Name]; !local {
+					return id.Name + "." + x.Sel.Name, nil
+				}
 			}
 			return "?", nil
 		}
@@ -194,7 +197,9 @@ func (w *refsWalker) call(c *ast.CallExpr) (string, error) {
 		}
 		recv = rv
 		if id, ok := f.X.(*ast.Ident); ok && rv == "?" {
-			recv = id.Name // a package
+			if _, local := w.env[id.Name]; !local {
+				recv = id.Name // a package
+			}
 		}
 	case *ast.FuncLit: // func() { ... }()
 		if err := w.block(f.Body.List); err != nil {
@@ -384,6 +389,14 @@ func (w *refsWalker) assign(lhs []ast.Expr, rhs []ast.Expr, pos token.Pos, defin
 		if err != nil {
 			return err
 		}
+		if _, isIndex := rhs[0].(*ast.IndexExpr); isIndex && len(lhs) == 2 { // x, ok := m[k]
+			for i, l := range lhs {
+				if id, ok := l.(*ast.Ident); ok && id.Name != "_" {
+					w.env[id.Name] = []string{v, "has(" + v + ")"}[i]
+				}
+			}
+			return nil
+		}
 		for i, l := range lhs {
 			if id, ok := l.(*ast.Ident); ok && id.Name != "_" {
 				if w.carried[id.Name] && !define {
@@ -431,8 +444,16 @@ func (w *refsWalker) assign(lhs []ast.Expr, rhs []ast.Expr, pos token.Pos, defin
 				}
 				w.emit("set "+l.Sel.Name, b, []string{v})
 			}
-		case *ast.StarExpr, *ast.IndexExpr:
-			// *held = append(*held, ref); cs.fids[fid] = x : not events
+		case *ast.IndexExpr: // cs.fids[fid] = x
+			b, err := w.expr(l.X)
+			if err != nil {
+				return err
+			}
+			if strings.HasSuffix(b, ".fids") {
+				w.emit("store", b, []string{v})
+			}
+		case *ast.StarExpr:
+			// *held = append(*held, ref): not an event
 		default:
 			return w.r.Refuse(pos, "assignment target %T", l)
 		}
@@ -678,7 +699,8 @@ func runRefsGen(r *Repo) (string, error) {
 	if err != nil {
 		return "", err
 	}
-	fns := []string{"fidRef.DecRef", "notifyDelete", "fidRef.markChildDeleted", "notifyNameChange", "fidRef.renameChildTo", "connState.stop", "doWalk"}
+	fns := []string{"fidRef.DecRef", "notifyDelete", "fidRef.markChildDeleted", "notifyNameChange", "fidRef.renameChildTo", "connState.stop", "doWalk",
+		"connState.LookupFID", "connState.InsertFID", "connState.DeleteFID"}
 	var b strings.Builder
 	b.WriteString("From Coq Require Import String List.\nImport ListNotations.\nOpen Scope string_scope.\n\n")
 	b.WriteString("(* event = (name, receiver, arguments, path condition, context) *)\n")
